@@ -975,6 +975,15 @@ void Exec::check_point(bool final) {
           K->now_us - w.accept_time_us[c.idx] > (lim_cfg.auth_timeout + 1) * 1000) overdue = true;
     if (overdue) { w.advance_ms(lim_cfg.auth_timeout + 1); md.now_us = K->now_us; w.quiesce(); resolve_choices(); }
   }
+  {
+    // Bounded liveness for the listen backlog: with the bus idle, a client still waiting to be accepted is
+    // legitimate only while the bus holds max_incomplete_connections unfinished connections
+    simk::Listener *l = K->find_listener(w.listen_name);
+    long cap = lim_cfg.max_incomplete_connections >= 0 ? lim_cfg.max_incomplete_connections : 64;
+    if (l && l->open && !l->backlog.empty() && w.bus_running() && w.n_incomplete() < cap && plan.C("oom.k", -1) < 0)
+      fail("oracle:C10:not-accepted", "%zu clients are waiting in the listen backlog, the bus is idle and holds only %d unfinished connections (max_incomplete_connections %ld): it has stopped accepting",
+           l->backlog.size(), w.n_incomplete(), cap);
+  }
   check_activation_starts();
   // Bounded liveness for service_start_timeout: an activation that is overdue ends in errors for its waiters
   if (!md.activatable.empty() && final && !md.activations.empty()) {
